@@ -107,7 +107,7 @@ def run(rep):
     rep.rule('R20.2', 'A + B: starts from A\'s interfaces in order, skips '
              'seen ones, puts a new i of B in front iff it extends an '
              'interface already in the result, else at the end; __radd__ is '
-             'the same function', floor=4)
+             'the same function', floor=3)
     rep.rule('R20.3', '__contains__/__iter__/flattened/interfaces: membership '
              '= extends and in interfaces(); iteration = interfaces(); '
              'flattened = __iro__; interfaces() walks __bases__ forward, '
@@ -128,99 +128,15 @@ def run(rep):
     ms = methods_of(decl)
 
     # ---- R20.1 ---------------------------------------------------------------
-    f = ms['__sub__']
-    rets = [n for n in walk_local(f) if isinstance(n, ast.Return)]
-    ok = len(rets) == 1
-    detail = 'returns: %d' % len(rets)
-    if ok:
-        v = rets[0].value
-        env = match('Declaration(*$c)', v)
-        comp = None
-        if env is not None:
-            comp = env['c']
-            if isinstance(comp, ast.Call) and dotted(comp.func) in ('tuple', 'list') \
-                    and comp.args:
-                comp = comp.args[0]
-            comp = resolve_local(f, comp) if isinstance(comp, ast.Name) else comp
-        if not isinstance(comp, (ast.ListComp, ast.GeneratorExp)) or \
-                len(comp.generators) != 1:
-            ok = False
-            detail = ('result `%s` is not Declaration(*[i for i in '
-                      'self.interfaces() if ...])' % norm_src(v)[:120])
-        else:
-            g = comp.generators[0]
-            i = g.target.id if isinstance(g.target, ast.Name) else None
-            src, d = iter_polarity(g.iter)
-            oksrc = match('self.interfaces()', src) is not None and d == 'fwd'
-            okelt = isinstance(comp.elt, ast.Name) and comp.elt.id == i
-            okf = len(g.ifs) == 1
-            fd = 'no filter'
-            if okf:
-                okf, fd = exists_filter(g.ifs[0], i)
-            ok = oksrc and okelt and okf
-            detail = fd if (oksrc and okelt) else (
-                'iterates `%s` %s yielding `%s` (required self.interfaces(), '
-                'forward, the interface itself)' % (norm_src(g.iter), d,
-                                                    norm_src(comp.elt)))
-    rep.check('R20.1', 'Declaration.__sub__', ok, detail, construct='predicate',
-              node=f)
-    # single pass, no in-place removal
-    loops = [n for n in walk_local(f) if isinstance(n, (ast.For, ast.While))]
-    rep.check('R20.1', 'Declaration.__sub__', not loops,
-              'built in one pass (no loop that edits a list while iterating it)',
-              construct='one-pass', node=f)
+    from . import declsem
+    declsem.decl_sub(rep, dmod, 'R20.1')
 
     # ---- R20.2 ---------------------------------------------------------------
-    f = ms['__add__']
-    res = resolve_local(f, ast.Name(id='result', ctx=ast.Load()))
-    rep.check('R20.2', 'Declaration.__add__',
-              match('list(self.interfaces())', res) is not None,
-              'result starts as list(self.interfaces()): %s' % norm_src(res),
-              construct='start', node=f)
-    lps = [n for n in f.body if isinstance(n, ast.For)]
-    ok = len(lps) == 1
-    detail = 'loops: %d' % len(lps)
-    if ok:
-        lp = lps[0]
-        src, d = iter_polarity(lp.iter)
-        v = lp.target.id
-        oksrc = match('other.interfaces()', src) is not None and d == 'fwd'
-        seen = resolve_local(f, ast.Name(id='seen', ctx=ast.Load()))
-        okseen = match('set(result)', seen) is not None
-        skip = [n for n in lp.body if isinstance(n, ast.If)
-                and match('%s in seen' % v, n.test) is not None
-                and any(isinstance(s, ast.Continue) for s in n.body)]
-        okskip = len(skip) == 1 and bool(find_all(lp, 'seen.add(%s)' % v))
-        place = [n for n in lp.body if isinstance(n, ast.If) and n not in skip]
-        okplace = False
-        pd = 'placement test not found'
-        if len(place) == 1:
-            p = place[0]
-            t = p.test
-            e = match('any(%s.extends($x) for $x in result)' % v, t) or \
-                match('any([%s.extends($x) for $x in result])' % v, t)
-            okplace = e is not None and \
-                any(match('before.append(%s)' % v, s, 'exec') is not None for s in p.body) \
-                and any(match('result.append(%s)' % v, s, 'exec') is not None
-                        for s in p.orelse)
-            pd = ('new i goes to `before` iff any(i.extends(x) for x in result) '
-                  '(receiver = the new interface), else appended: `%s`' % norm_src(t))
-        rets = [n for n in walk_local(f) if isinstance(n, ast.Return)]
-        okret = len(rets) == 1 and match('Declaration(*(before + result))',
-                                         rets[0].value) is not None
-        ok = oksrc and okseen and okskip and okplace and okret
-        detail = ('source other.interfaces() fwd (%s); seen = set(result) and '
-                  'skipping (%s/%s); %s (%s); returns Declaration(*(before + '
-                  'result)) (%s)' % (oksrc, okseen, okskip, pd, okplace, okret))
-    rep.check('R20.2', 'Declaration.__add__', ok, detail, construct='placement',
-              node=f)
+    declsem.decl_add(rep, dmod, 'R20.2')
     v = class_attr_assign(decl, '__radd__')
     rep.check('R20.2', 'Declaration.__radd__',
               v is not None and dotted(v) == '__add__', '__radd__ = __add__',
               construct='radd', node=decl)
-    bf = resolve_local(f, ast.Name(id='before', ctx=ast.Load()))
-    rep.check('R20.2', 'Declaration.__add__', match('[]', bf) is not None,
-              'before starts empty', construct='before', node=f)
 
     # ---- R20.3 ---------------------------------------------------------------
     f = ms['__contains__']
@@ -240,31 +156,7 @@ def run(rep):
     rep.check('R20.3', 'Declaration.flattened',
               len(rets) == 1 and match('iter(self.__iro__)', rets[0].value) is not None,
               'flattened = iter(__iro__)', node=f)
-    f = find_def(imod, 'Specification.interfaces')
-    lps = [n for n in f.body if isinstance(n, ast.For)]
-    ok = len(lps) == 1
-    if ok:
-        lp = lps[0]
-        src, d = iter_polarity(lp.iter)
-        inner = [n for n in lp.body if isinstance(n, ast.For)]
-        ok = match('self.__bases__', src) is not None and d == 'fwd' and len(inner) == 1
-        if ok:
-            il = inner[0]
-            s2, d2 = iter_polarity(il.iter)
-            iv = il.target.id
-            ok = match('%s.interfaces()' % lp.target.id, s2) is not None and d2 == 'fwd'
-            g = [n for n in il.body if isinstance(n, ast.If)
-                 and match('%s not in seen' % iv, n.test) is not None]
-            ok = ok and len(g) == 1 and \
-                bool(find_all(g[0], 'yield %s' % iv, 'exec')) and \
-                bool(find_all(g[0], 'seen[%s] = $v' % iv, 'exec') or
-                     find_all(g[0], 'seen.add(%s)' % iv))
-            exits = [n for n in walk_local(lp) if isinstance(
-                n, (ast.Break, ast.Return, ast.Continue))]
-            ok = ok and not exits
-    rep.check('R20.3', 'Specification.interfaces', ok,
-              'walks __bases__ forward, flattens each base\'s interfaces() '
-              'forward, yields the first occurrence of each', node=f)
+    declsem.spec_interfaces(rep, imod, 'R20.3')
     f = find_def(imod, 'InterfaceClass.interfaces')
     ys = [n for n in walk_local(f) if isinstance(n, ast.Yield)]
     rep.check('R20.3', 'InterfaceClass.interfaces',
@@ -280,26 +172,7 @@ def run(rep):
            'Specification.extends')
 
     # ---- R20.5 ---------------------------------------------------------------
-    f = find_def(dmod, '_normalizeargs')
-    ps = shared.params(f)
-    seq, out = ps[0], ps[1]
-    ifs = [n for n in f.body if isinstance(n, ast.If) and n.orelse]
-    ok = False
-    for i in ifs:
-        app = any(match('%s.append(%s)' % (out, seq), s, 'exec') is not None
-                  for s in i.body)
-        lps = [n for n in i.orelse if isinstance(n, ast.For)]
-        if app and len(lps) == 1:
-            lp = lps[0]
-            src, d = iter_polarity(lp.iter)
-            ok = match(seq, src) is not None and d == 'fwd' and bool(find_all(
-                lp, '_normalizeargs(%s, %s)' % (lp.target.id, out))) and \
-                ('InterfaceClass' in norm_src(i.test) and 'Implements' in norm_src(i.test))
-    rets = [n for n in walk_local(f) if isinstance(n, ast.Return)]
-    ok = ok and len(rets) == 1 and match(out, rets[0].value) is not None
-    rep.check('R20.5', 'declarations._normalizeargs', ok,
-              'interfaces / Implements are appended as is, other sequences are '
-              'flattened in place, forward', node=f)
+    declsem.normalizeargs(rep, dmod, 'R20.5')
     f = ms['__init__']
     rep.check('R20.5', 'Declaration.__init__',
               bool(find_all(f, 'Specification.__init__(self, _normalizeargs(bases))')),
